@@ -686,6 +686,9 @@ class SecopClient(ProxyClient):
         # the last item is for the reply
         entry = [request, Event(), None]
         self.txq.put(entry, timeout=3)
+        if not self._running:
+            # shut down in the meantime: nobody will send this request, do not let the caller wait
+            entry[1].set()
         return entry
 
     def get_reply(self, entry):
